@@ -173,6 +173,8 @@ class Foundry:
             return True, b""
         if s == SIG["deal"]:
             evm.w.get(w(0) & refevm.A160).balance = w(1)
+            if w(1) > 2**128:
+                evm.tr["deal_above_max_eth"] = True  # halmos' documented practical assumption: balances <= 2^128
             return True, b""
         if s == SIG["store"]:
             a = w(0) & refevm.A160
